@@ -18,7 +18,7 @@ from .core import Verdict
 from .c12 import Server
 
 MOD = "example.com/m"
-STAGES = ["template-missing", "template-404", "schema-missing", "schema-invalid-iface", "schema-invalid-file", "template-parse", "template-exec", "format"]
+STAGES = ["template-missing", "template-404", "template-missing-schema-not-required", "template-404-schema-not-required", "schema-missing", "schema-invalid-iface", "schema-invalid-file", "template-parse", "template-exec", "format"]
 STATES = ["absent", "prev-long", "prev-short", "user", "user-marker", "dir"]
 
 BYSTANDERS = {
@@ -73,6 +73,14 @@ def build(case, root, server, with_injection, all_force):
                 ic["template"] = "file://tm/missing.templ"
             elif st == "template-404":
                 ic["template"] = "http://127.0.0.1:%d/nope/%d/t.templ" % (server.http, case["i"])
+            elif st == "template-missing-schema-not-required":
+                ic["template"] = "file://tm/missing.templ"
+                ic["require-template-schema-exists"] = False
+                ic["formatter"] = "gofmt" if case["formatter"] == "goimports" else case["formatter"]   # a formatter that would accept an empty file
+            elif st == "template-404-schema-not-required":
+                ic["template"] = "http://127.0.0.1:%d/nope/%d/t.templ" % (server.http, case["i"])
+                ic["require-template-schema-exists"] = False
+                ic["formatter"] = "noop" if case["formatter"] == "goimports" else case["formatter"]
             elif st == "schema-missing":
                 files["tm/ok.templ"] = "package {{.PkgName}}\n"
                 ic["template"] = "file://tm/ok.templ"
